@@ -454,6 +454,7 @@ def run(tier, seed):
             ('acyclic', 'nested', [2], [(2, 0), (100, 0)], ['A1'], 0, seed),
             ('acyclic', 'alias', [5], [(100, 0)], ['A1'], 0, seed),
             ('acyclic', 'cse', [5], [(100, 0)], ['A2'], 0, seed),
+            ('acyclic', 'onecell', [5], [(100, 0)], ['A1'], 0, seed),
             ('acyclic', 'chain', [2], [(1, 0), (100, 0)], ['A1'], 0, seed, 'Stored'),
             ('acyclic', 'range', [2], [(2, 0), (100, 0)], ['A1'], 0, seed, 'Stored'),
             ('cyclic', 'cyc2', [0, 8], [(1, T4), (3, T4), (100, T4)], None, 4, seed),
